@@ -239,3 +239,19 @@ def write_evidence(prop, tier, level, coverage, wall, violations, assumptions):
     with open(tmp, "w") as f:
         json.dump(ev, f, indent=1, sort_keys=True)
     os.replace(tmp, os.path.join(EVIDENCE, prop + ".json"))
+
+
+def run_apalache(module, args, timeout=900):
+    """Run apalache-mc check on spec/<module>.tla in a scratch directory; returns True iff the outcome is NoError."""
+    wd = scratch("verif-apalache-")
+    shutil.copyfile(os.path.join(SPEC, module + ".tla"), os.path.join(wd, module + ".tla"))
+    env = dict(os.environ, JVM_ARGS="-Xmx4g -Djava.io.tmpdir=" + wd)
+    try:
+        p = subprocess.run(["apalache-mc", "check", "--out-dir=" + os.path.join(wd, "out")] + list(args) + [module + ".tla"], cwd=wd, env=env,
+                           capture_output=True, text=True, timeout=timeout)
+    except (subprocess.TimeoutExpired, FileNotFoundError) as e:
+        raise Infra("apalache-mc failed to run on %s: %s" % (module, e))
+    out = p.stdout + p.stderr
+    if "The outcome is: NoError" in out and p.returncode == 0:
+        return True
+    raise Infra("apalache-mc on %s %s did not report NoError (a specification problem, not a code verdict):\n%s" % (module, " ".join(args), out[-2000:]))
